@@ -127,7 +127,7 @@ def run(chk, w):
 
     # ---- PRIV: concurrent senders do not share the assembly buffer
     from . import c05
-    wire = c05.wire_append_fns(P)
+    wire = c05.wire_append_fns(P, w)
     if wire:
         c05.priv_rule(chk, P, sorted(S.constructors), wire, "C18-PRIV")
 
